@@ -230,6 +230,10 @@ func (p *provider) Close() error {
 			if err := s.Close(); err != nil {
 				errors = append(errors, fmt.Errorf("scope %s: %w", s.ID(), err))
 			}
+
+			// A scope that is being disposed by somebody else (its parent or
+			// its cancellation watcher) must be done before singletons go
+			<-s.closed
 		}
 	}
 
